@@ -106,6 +106,13 @@ func corpus() []*History {
 			{Name: "", Pkgs: []PkgD{{Name: "p-d", Version: "1", Provides: []string{"virt=1"}}, {Name: "o-z", Version: "1", Provides: []string{"virt=1"}}}}},
 		Calls: []CallD{{[]int{0}, []string{"virt"}, nil}, {[]int{0, 1}, []string{"u"}, nil}, {[]int{1, 0}, []string{"virt"}, nil}, {[]int{0}, []string{"u"}, nil}}})
 
+	add(&History{Note: "cmp.Compare on names, reached through the second version comparison: five packages of ONE package version provide libj8=8.3.2 (provided version equal for all, different from the package version); the provider chosen must not follow the slice order of the provided name (map iteration when the resolver is built)",
+		Class: "corpus/envelope/tiebreak", Universe: []IndexD{
+			{Name: "", Pkgs: []PkgD{{Name: "jpeg-compat", Version: "3.0.1-r0", Provides: []string{"libj8=8.3.2"}}, {Name: "jpeg-turbo", Version: "3.0.1-r0", Provides: []string{"libj8=8.3.2"}},
+				{Name: "jpeg-z", Version: "3.0.1-r0", Provides: []string{"libj8=8.3.2"}}, {Name: "jpeg-a", Version: "3.0.1-r0", Provides: []string{"libj8=8.3.2"}},
+				{Name: "jpeg-m", Version: "3.0.1-r0", Provides: []string{"libj8=8.3.2"}}, p("imgtool", "1.4.0-r2", "libj8"), p("other", "1", "libj8>8")}}},
+		Calls: []CallD{{[]int{0}, []string{"imgtool"}, nil}, {[]int{0}, []string{"libj8"}, nil}, {[]int{0}, []string{"other", "imgtool"}, nil}, {[]int{0}, []string{"imgtool"}, one(0)}}})
+
 	// ---- index order is part of the key; pins; invalid versions (memo misses) ---------
 	add(&History{Note: "same world over [0,1] and [1,0]; pinned requests; a version that does not parse is never memoised",
 		Class: "corpus/envelope/keys", Universe: []IndexD{
@@ -138,6 +145,15 @@ func corpus() []*History {
 			{[]int{1, 0}, []string{"app"}, nil}, {[]int{0, 1}, []string{"app"}, nil},
 			{[]int{0, 1, 2}, []string{"tool", "app"}, nil}, {[]int{2, 0, 1}, []string{"tool", "app"}, nil}, {[]int{1, 2, 0}, []string{"tool", "app"}, nil},
 			{[]int{2, 1, 0}, []string{"tool"}, nil}, {[]int{0, 1, 2}, []string{"tool"}, nil}, {[]int{0, 2}, []string{"base"}, nil}, {[]int{2, 0}, []string{"base"}, nil}}})
+	// ---- the install_if loop runs once per REQUEST, on that request's dependency list ----------
+	// (replays of c08_install_if_cross_request_refuted / c08_install_if_request_complete)
+	add(&History{Note: "install_if across requests: j install_if a b; world [w1 w2] (w1 -> a, w2 -> b) installs a and b but NOT j; world [w] (w -> a, b) installs j; a requested package is not a member of its own list: world [a] does not install a-x (install_if a), world [wa] (wa -> a) does; mixed orders and repeated requests",
+		Class: "corpus/envelope/iif-per-request", Universe: []IndexD{{Name: "", Pkgs: []PkgD{
+			p("w1", "1", "a"), p("w2", "1", "b"), p("a", "1"), p("b", "1"), {Name: "j", Version: "1", InstallIf: []string{"a", "b"}}, p("w", "1", "a", "b"),
+			{Name: "a-x", Version: "1", InstallIf: []string{"a"}}, p("wa", "1", "a"), {Name: "jj", Version: "1", InstallIf: []string{"j", "a-x"}}}}},
+		Calls: []CallD{{[]int{0}, []string{"w1", "w2"}, nil}, {[]int{0}, []string{"w"}, nil}, {[]int{0}, []string{"a"}, nil}, {[]int{0}, []string{"wa"}, nil},
+			{[]int{0}, []string{"a", "b"}, nil}, {[]int{0}, []string{"w2", "w1", "w"}, nil}, {[]int{0}, []string{"w", "w1"}, nil}, {[]int{0}, []string{"wa", "w2"}, nil}, {[]int{0}, []string{"w1", "w2"}, nil}}})
+
 	add(&History{Note: "one cache key, nine worlds: every call gets a clone of ONE prototype and a copy of ONE disqualification entry (two architectures)",
 		Class: "corpus/envelope/one-key", Universe: selu, Calls: []CallD{
 			{[]int{0}, []string{"a"}, nil}, {[]int{0}, []string{"z"}, nil}, {[]int{0}, []string{"y", "a"}, nil}, {[]int{0}, []string{"x"}, nil},
